@@ -1192,44 +1192,99 @@ fn judge(files: &[(String, String)], perm: Option<usize>, expect: &Expect, class
 	}
 }
 
-/// Struct names whose LLVM type name may carry a uniquifying suffix.
+/// The IR text up to the names of local values, types and private symbols: every `%name` and every
+/// `@name` with private or internal linkage is renamed in order of first appearance. Two modules
+/// that differ only in such names (LLVM's uniquifying suffixes, counters of string constants)
+/// have the same canonical text.
 fn normalise_ir(ir: &str) -> String
 {
-	let mut out = String::with_capacity(ir.len());
-	let bytes = ir.as_bytes();
-	let mut i = 0;
-	while i < bytes.len()
+	fn name_end(bytes: &[u8], mut j: usize) -> usize
 	{
-		if bytes[i] == b'%'
+		if bytes.get(j) == Some(&b'"')
 		{
-			// %Name.N -> %Name for the structure names used in the history modules
-			let mut matched = false;
-			for name in ["Hidden", "Pair"]
+			j += 1;
+			while j < bytes.len() && bytes[j] != b'"'
 			{
-				let n = name.len();
-				if ir[i + 1..].starts_with(name) && bytes.get(i + 1 + n) == Some(&b'.')
-				{
-					let mut j = i + 2 + n;
-					while j < bytes.len() && bytes[j].is_ascii_digit()
-					{
-						j += 1;
-					}
-					if j > i + 2 + n
-					{
-						out.push('%');
-						out.push_str(name);
-						i = j;
-						matched = true;
-						break;
-					}
-				}
+				j += 1;
 			}
-			if matched
+			return (j + 1).min(bytes.len());
+		}
+		while j < bytes.len() && (bytes[j].is_ascii_alphanumeric() || matches!(bytes[j], b'_' | b'.' | b'$' | b'-'))
+		{
+			j += 1;
+		}
+		j
+	}
+	let bytes = ir.as_bytes();
+	// private symbols of this module
+	let mut private: std::collections::HashSet<String> = std::collections::HashSet::new();
+	for line in ir.lines()
+	{
+		let is_private = line.contains(" private ") || line.contains(" internal ");
+		if !is_private
+		{
+			continue;
+		}
+		if line.starts_with('@') || line.starts_with("define ")
+		{
+			if let Some(at) = line.find('@')
 			{
-				continue;
+				let end = name_end(line.as_bytes(), at + 1);
+				private.insert(line[at + 1..end].to_string());
 			}
 		}
-		out.push(bytes[i] as char);
+	}
+	let mut locals: HashMap<String, usize> = HashMap::new();
+	let mut globals: HashMap<String, usize> = HashMap::new();
+	let mut out = String::with_capacity(ir.len());
+	let mut i = 0;
+	let mut in_string = false;
+	while i < bytes.len()
+	{
+		let c = bytes[i];
+		// constant strings c"..." are data, not names
+		if c == b'"' && i > 0 && bytes[i - 1] == b'c' && !in_string
+		{
+			in_string = true;
+			out.push('"');
+			i += 1;
+			continue;
+		}
+		if in_string
+		{
+			if c == b'"'
+			{
+				in_string = false;
+			}
+			out.push(c as char);
+			i += 1;
+			continue;
+		}
+		if c == b'%' || c == b'@'
+		{
+			let end = name_end(bytes, i + 1);
+			if end > i + 1
+			{
+				let name = &ir[i + 1..end];
+				if c == b'%'
+				{
+					let n = locals.len();
+					let k = *locals.entry(name.to_string()).or_insert(n);
+					out.push_str(&format!("%v{k}"));
+					i = end;
+					continue;
+				}
+				if private.contains(name)
+				{
+					let n = globals.len();
+					let k = *globals.entry(name.to_string()).or_insert(n);
+					out.push_str(&format!("@p{k}"));
+					i = end;
+					continue;
+				}
+			}
+		}
+		out.push(c as char);
 		i += 1;
 	}
 	out
